@@ -95,11 +95,23 @@ Fixpoint sis_trace (Nf : nat) (st : sis_state) (evs : list event) : list sis_sta
   | ev :: r => let st' := sis_step Nf st ev in st' :: sis_trace Nf st' r
   end.
 
+(* per step: the corrected set before the resampling test, the decision, the state after the step
+   (what the driver prints; C06_Proofs.trace_full_bridge: its third components are sis_trace) *)
+Fixpoint sis_trace_full (Nf : nat) (st : sis_state) (evs : list event) : list (sset * bool * sis_state) :=
+  match evs with
+  | [] => []
+  | ev :: r =>
+      let m := sis_mid st ev in
+      let st' := sis_step Nf st ev in
+      (cor m, needs_resampling Nf (cor m), st') :: sis_trace_full Nf st' r
+  end.
+
 End C06.
 Arguments mkSset {_ St Aux}. Arguments s_lin {_ St Aux}. Arguments s_circ {_ St Aux}. Arguments s_parts {_ St Aux}. Arguments s_lw {_ St Aux}.
-Arguments mkEvent {_ St Aux}. Arguments ev_skip_pred {_ St Aux}. Arguments ev_skip_corr {_ St Aux}. Arguments ev_freeze {_ St Aux}.
-Arguments ev_lik {_ St Aux}. Arguments ev_pred {_ St Aux}. Arguments ev_u1 {_ St Aux}.
+Arguments mkEvent {_ St}. Arguments ev_skip_pred {_ St}. Arguments ev_skip_corr {_ St}. Arguments ev_freeze {_ St}.
+Arguments ev_lik {_ St}. Arguments ev_pred {_ St}. Arguments ev_u1 {_ St}.
 Arguments mkSis {_ St Aux}. Arguments step {_ St Aux}. Arguments pred {_ St Aux}. Arguments cor {_ St Aux}.
 Arguments predict {_ St Aux}. Arguments correct {_ St Aux}. Arguments normalise {_ St Aux}. Arguments sis_mid {_ St Aux}.
 Arguments needs_resampling {_ St Aux}. Arguments resampled {_ St Aux}. Arguments sis_step {_ St Aux}. Arguments sis_run {_ St Aux}.
 Arguments sis_trace {_ St Aux}.
+Arguments sis_trace_full {_ St Aux}.
